@@ -399,6 +399,12 @@ func c17Contexts() []c17Ctx {
 			t := ph(a, ClsUserName, "text", "names")
 			return "text " + t.Placeholder() + " {\nformat(\"{A}{B} aa bb {A}{B} aa bb aa bb aa bb aa\", \"font1\")\n}", func() interp.Value { return t.Val }
 		}},
+		{"script-with-moves", func(a *AtomTable) (string, func() interp.Value) {
+			// its hoisted movement block is compared too (through the label the
+			// command carries): walk_a twice, then walk_b twice
+			s := ph(a, ClsUserName, "script", "names")
+			return "script " + s.Placeholder() + " {\n" + ph(a, ClsPlainCmd, "cmd", "").Placeholder() + "(moves(walk_a * 2 walk_b * 2))\n}", func() interp.Value { return cat(s.Val, "_Movement_0") }
+		}},
 		{"movement", func(a *AtomTable) (string, func() interp.Value) {
 			m := ph(a, ClsUserName, "mv", "names")
 			return "movement " + m.Placeholder() + " {\n" + ph(a, ClsIdent, "step", "").Placeholder() + " * 2\nwalk_up\n}", func() interp.Value { return m.Val }
@@ -420,7 +426,12 @@ func c17Contexts() []c17Ctx {
 	fmtOverlap := func(a *AtomTable) string {
 		return "script " + ph(a, ClsUserName, "script", "names").Placeholder() + " {\n" + ph(a, ClsPlainCmd, "cmd", "").Placeholder() + "(format(\"{A}{B} aa bb {A}{B} aa bb aa bb aa bb aa\", \"font1\", cursorOverlapWidth=2))\n}"
 	}
-	neighbours := map[string]func(a *AtomTable) string{"script": script, "texts": texts, "mapscripts+mart": maps, "raw": raw, "format-other-font": fmt2, "format-same-text-numLines": fmtLines, "format-same-text-cursorOverlap": fmtOverlap}
+	// moves() lists that differ from the subject's only in how often the last
+	// (or only the first) step repeats: they must not share its block
+	movesNear := func(a *AtomTable) string {
+		return "script " + ph(a, ClsUserName, "script", "names").Placeholder() + " {\n" + ph(a, ClsPlainCmd, "cmd", "").Placeholder() + "(moves(walk_a * 2 walk_b))\n" + ph(a, ClsPlainCmd, "cmd", "").Placeholder() + "(moves(walk_a walk_b * 2))\n" + ph(a, ClsPlainCmd, "cmd", "").Placeholder() + "(moves(walk_a * 2 walk_b * 3))\n}"
+	}
+	neighbours := map[string]func(a *AtomTable) string{"moves-differing-in-repeat-counts": movesNear, "script": script, "texts": texts, "mapscripts+mart": maps, "raw": raw, "format-other-font": fmt2, "format-same-text-numLines": fmtLines, "format-same-text-cursorOverlap": fmtOverlap}
 	var nnames []string
 	for n := range neighbours {
 		nnames = append(nnames, n)
